@@ -210,3 +210,91 @@ Proof.
   destruct (nonempty (t_CertFile c2) && nonempty (t_CertPem c2)); [reflexivity|].
   destruct (nonempty (t_KeyFile c2) && nonempty (t_KeyPem c2)); reflexivity.
 Qed.
+
+(* ---- without the hypothesis that the configured keys stay distinct once canonicalised --------------
+   Go's map has distinct RAW keys only; "x-tok" and "X-Tok" are two entries that Header.Set writes to the
+   same canonical key, the later one in (random) iteration order winning.  Whatever the order, what is
+   sent under that key is the secret of ONE of the entries with that canonical key — never anything else. *)
+Lemma set_all_some : forall cfg h k v,
+  In (k, v) cfg ->
+  exists k' v', In (k', v') cfg /\ canon_mime k' = canon_mime k /\
+                hget (http_set_all cfg h) (canon_mime k) = Some v'.
+Proof.
+  unfold http_set_all. induction cfg as [|[k0 v0] r IH]; intros h k v I; simpl in *; [contradiction|].
+  destruct (existsb (fun kv => String.eqb (canon_mime (fst kv)) (canon_mime k)) r) eqn:E.
+  - apply existsb_exists in E. destruct E as [[k2 v2] [I2 E2]]. simpl in E2. apply String.eqb_eq in E2.
+    destruct (IH (hset h (canon_mime k0) v0) k2 v2 I2) as [k' [v' [I' [C' G']]]].
+    exists k', v'. split; [now right|]. split; [congruence|]. now rewrite <- E2.
+  - assert (N : ~ In (canon_mime k) (ckeys r)).
+    { intros Hin. unfold ckeys in Hin. apply in_map_iff in Hin. destruct Hin as [[k2 v2] [E2 I2]].
+      assert (X : existsb (fun kv => String.eqb (canon_mime (fst kv)) (canon_mime k)) r = true).
+      { apply existsb_exists. exists (k2, v2). split; [exact I2|]. simpl in *. rewrite E2. apply String.eqb_refl. }
+      congruence. }
+    destruct I as [I|I].
+    + inversion I; subst. exists k, v. split; [now left|]. split; [reflexivity|].
+      fold (http_set_all r (hset h (canon_mime k) v)). rewrite set_all_other by exact N. apply hget_hset_same.
+    + exfalso. apply N. unfold ckeys. apply in_map_iff. exists (k, v). auto.
+Qed.
+
+(* grpc appends: with colliding lower-cased keys every one of their secrets is sent (and nothing is dropped) *)
+Lemma md_append_keeps m k v x y : In y (md_get m x) -> In y (md_get (md_append m k v) x).
+Proof.
+  intros H. destruct (String.eqb x k) eqn:E.
+  - apply String.eqb_eq in E. subst x. rewrite md_get_append_same. apply in_or_app. now left.
+  - rewrite md_get_append_other; [exact H|]. intros X. subst. now rewrite String.eqb_refl in E.
+Qed.
+
+Lemma grpc_fold_keeps : forall cfg existing m x y,
+  In y (md_get m x) ->
+  In y (md_get (fold_left (fun m kv => if md_absent existing (lower_s (fst kv))
+                                       then md_append m (lower_s (fst kv)) (snd kv) else m) cfg m) x).
+Proof.
+  induction cfg as [|[k v] r IH]; intros existing m x y H; simpl; [exact H|].
+  apply IH. destruct (md_absent existing (lower_s k)); [now apply md_append_keeps|exact H].
+Qed.
+
+Lemma grpc_fold_contains : forall cfg existing m k v,
+  In (k, v) cfg -> md_absent existing (lower_s k) = true ->
+  In v (md_get (fold_left (fun m kv => if md_absent existing (lower_s (fst kv))
+                                       then md_append m (lower_s (fst kv)) (snd kv) else m) cfg m) (lower_s k)).
+Proof.
+  induction cfg as [|[k0 v0] r IH]; intros existing m k v I Ab; simpl in *; [contradiction|].
+  destruct I as [I|I].
+  - inversion I; subst. rewrite Ab. apply grpc_fold_keeps. rewrite md_get_append_same. apply in_or_app. right. now left.
+  - now apply IH.
+Qed.
+
+Lemma grpc_contains_l : forall cfg existing k v,
+  In (k, v) cfg -> md_get existing (lower_s k) = [] ->
+  In v (md_get (grpc_add_headers cfg existing) (lower_s k)).
+Proof.
+  intros cfg existing k v I A. unfold grpc_add_headers. apply grpc_fold_contains; [exact I|].
+  unfold md_absent. now rewrite A.
+Qed.
+
+(* ---- the CA pool ----------------------------------------------------------------------------------------- *)
+Lemma load_ca_gen_l : forall f p, load_ca f p = load_ca_gen f p.
+Proof. intros f p. unfold load_ca, load_ca_gen. destruct (tls_pem_present_l p) as [_ [_ E]]. now rewrite E. Qed.
+
+Lemma ca_pem_l : forall p, p <> "" -> load_ca "" p = CaFrom (FromPem p).
+Proof.
+  intros p H. unfold load_ca, nonempty. simpl.
+  destruct (String.eqb p "") eqn:E; [apply String.eqb_eq in E; contradiction|reflexivity].
+Qed.
+
+Lemma ca_error_ni_l : forall f1 p1 f2 p2 ok,
+  nonempty f1 = nonempty f2 -> nonempty p1 = nonempty p2 ->
+  ca_error_text (load_ca f1 p1) ok = ca_error_text (load_ca f2 p2) ok.
+Proof.
+  intros f1 p1 f2 p2 ok H1 H2. unfold load_ca. rewrite H1, H2.
+  destruct (nonempty f2), (nonempty p2); reflexivity.
+Qed.
+
+(* ---- Validate() -------------------------------------------------------------------------------------------- *)
+Lemma validate_ni_l : forall b k h1 h2 e,
+  grpc_client_validate b k h1 = grpc_client_validate b k h2 /\ http_client_validate e h1 = http_client_validate e h2.
+Proof. intros; split; reflexivity. Qed.
+
+Lemma tls_validate_ni_l : forall f p1 c1 k1 p2 c2 k2,
+  nonempty p1 = nonempty p2 -> tls_validate f p1 c1 k1 = tls_validate f p2 c2 k2.
+Proof. intros f p1 c1 k1 p2 c2 k2 H. unfold tls_validate. now rewrite H. Qed.
